@@ -33,6 +33,9 @@ MC_WRAP_PRE = mcc('MC_Wrap', 'MC_WrapPre', invariants='Inv_Width Inv_Overflow In
 MC_WRAP_MARKS = mcc('MC_Wrap', 'MC_WrapMarks', invariants='Inv_Width Inv_Conserve Inv_Frags')
 MC_BLOCK = mcc('MC_Block', 'MC_Block', invariants='Inv_C02_Step Inv_C03_Step Inv_C09_Balanced Inv_C01 Inv_C11 Inv_P_C02 Inv_P_C03 Inv_P_C08 Inv_P_C09 Inv_P_C14')
 
+MC_LIVE = mcc('MC_Block', 'MC_BlockLive', invariants='PROPERTY Terminates: (phase = render) ~> (phase = done) under weak fairness of the step machine')
+MC_REL = mcc('MC_Block', 'MC_Rel', invariants='Inv_Rel_C11 Inv_Rel_C13 Inv_Rel_C15 Inv_Rel_C07 (the relational predicates P_C11 / P_C13 / P_C15 / P_C07 on pairs of model renderings: overflow / width 0, white-space variants, one option at a time, a block against its items at the narrower width)')
+
 MC_WORDS = mcc('MC_Words', 'MC_Words', invariants='Inv_Greedy Inv_Width')
 
 MC_TABLE = mcc('MC_Block', 'MC_Table', invariants='Inv_C02_Step Inv_C03_Step Inv_C09_Balanced Inv_C01 Inv_Alloc Inv_P_C02 Inv_P_C03 Inv_P_C05 Inv_P_C06')
@@ -72,21 +75,21 @@ PLANS = {
     ),
     'C11': dict(
         fams=[('c11', dict(quick=3000, thorough=60000), {})],
-        mc=[MC_BLOCK],
+        mc=[MC_BLOCK, MC_REL],
         nontrivial=lambda rec: len(rec.get('runs', [])) == 3 and rec['runs'][1]['res']['k'] != rec['runs'][2]['res']['k'] or any(r['res']['k'] == 'ok' and any(sw > r['w'] for sw in r['res']['sw']) for r in rec.get('runs', [])),
         rule='each case = three runs (d,0,o), (d,w,o), (d,w,o+overflow) on grammar documents and byte mutations, widths 1..60, random option mixes; non-trivial = the base run fails while the overflow run succeeds, or some line overflows the width; distinct by sha256(runs)',
         assumptions=['the line bound uses P(d) computed in TLA+ from the harness DOM and the observed decorator strings; footnote lines are bounded only when links are wrappable'],
     ),
     'C13': dict(
         fams=[('c13', dict(quick=3000, thorough=60000), {})],
-        mc=[MC_WRAP],
+        mc=[MC_WRAP, MC_REL],
         nontrivial=lambda rec: any(r['res']['k'] == 'ok' and len(r['res']['lines']) >= 2 for r in rec.get('runs', [])),
         rule='each case = a table-free, pre-free grammar document and a source-level rewrite of it (whitespace-run substitution, comments next to whitespace, span wrapping of inline runs that contain a word, newlines/indentation between the blocks of an element that has visible content), same width 1..100 and configuration; MC_Wrap checks idempotence/interchangeability of collapsible whitespace on every state; non-trivial = Ok with >= 2 lines; distinct by sha256(runs)',
         assumptions=['rewrite (d) treats as blocks only what the library lays out as blocks; white space is never inserted into an element without visible content (known finding ws-only-block)'],
     ),
     'C15': dict(
         fams=[('c15', dict(quick=4000, thorough=80000), {})],
-        mc=[],
+        mc=[MC_REL],
         nontrivial=lambda rec: len(rec.get('runs', [])) == 2 and rec['runs'][0]['res'] != rec['runs'][1]['res'],
         rule='each case = (d,w,base) and (d,w,base+o) for o in {max_wrap_width(m), pad_block_width, unicode_strikeout(false), no_table_borders, raw_mode, link_footnotes(false), no_link_wrapping, min_wrap_width(k)}; half of the documents have nothing the option applies to; non-trivial = the two results differ; distinct by sha256(runs)',
         assumptions=['the per-option relation is the one written next to P_C15 in spec/Props.tla'],
@@ -100,7 +103,7 @@ PLANS = {
     ),
     'C07': dict(
         fams=[('c07', dict(quick=3000, thorough=60000), {})],
-        mc=[MC_BLOCK],
+        mc=[MC_BLOCK, MC_REL],
         nontrivial=lambda rec: len(rec.get('runs', [])) >= 2 and all(r['res']['k'] == 'ok' for r in rec['runs']) and len(rec['runs'][0]['res']['lines']) >= 2,
         rule='each case = one block B in {ul, ol(start in {absent,-100,-12,-9,-1,0,1,5,9,95,98,100,999}, 1..15 items), blockquote, h1..h6, dd} with random flow content (nested blocks included) at width w, plus one auxiliary run per item: the item content as a stand-alone document at w - prefix width; the predicate composes the real sub-renderings with the prefixes; non-trivial = all runs Ok and B has >= 2 lines; distinct by sha256(runs)',
         assumptions=['content without links (footnote numbering is global by design, C08)', 'prefix strings are the ones the decorator returns (observed through its trait methods)'],
@@ -150,7 +153,7 @@ PLANS = {
     ),
     'C01': dict(
         fams=[('c01', dict(quick=3000, thorough=40000), dict(depth=1000)), ('c01', dict(quick=0, thorough=400), dict(depth=30000))],
-        mc=[MC_LOOPS, MC_BLOCK, MC_TABLE],
+        mc=[MC_LOOPS, MC_LIVE, MC_BLOCK, MC_TABLE],
         model_ok=False,
         timeout_ms=dict(quick=60000, thorough=900000),
         nontrivial=lambda rec: bool(rec.get('runs')) and rec['runs'][0]['res']['k'] in ('ok', 'narrow'),
@@ -274,7 +277,10 @@ def run_check(prop, tier, seed, t0, no_mc=False):
             os.remove(fp)
 
     tmo = plan.get('timeout_ms', 20000)
-    n = vlib.execute(cases_path, trace_path, timeout_ms=tmo[tier] if isinstance(tmo, dict) else tmo)
+    n_steps = plan.get('steps_sample', dict(quick=200, thorough=4000))[tier] if plan.get('model_ok', True) else 0
+    n_total = vlib.count_lines(cases_path)
+    n = vlib.execute(cases_path, trace_path, timeout_ms=tmo[tier] if isinstance(tmo, dict) else tmo,
+                     steps_every=max(1, n_total // (2 * n_steps)) if n_steps else 0)
     log('[exec] %d cases executed (%.1fs)' % (n, time.time() - t0))
     judged, bad, tstates, twall = vlib.judge(trace_path, prop)
     log('[judge] %d judged, %d failing predicate (%.1fs TLC)' % (judged, len(bad), twall))
@@ -328,6 +334,14 @@ def run_check(prop, tier, seed, t0, no_mc=False):
                 drift.append(cases[model_idx[i]].get('id'))
             n_pred += model_checked
             log('[model] %d random cases replayed through the model, %d drift (%.1fs TLC)' % (model_checked, len(mbad), mwall))
+
+    # step-level validation of the hook events (binding at the granularity of render nodes; drift, not verdict)
+    step_info = dict(records=0, events=0, mismatches=[])
+    if n_steps:
+        sn, sev, sbad, sstates, swall = vlib.steps_validate(trace_path, wd, n_steps)
+        tstates += sstates
+        step_info = dict(records=sn, events=sev, mismatches=['%s: %s' % (i, w) for i, w in sbad[:20]], mismatch_count=len(sbad))
+        log('[steps] %d runs / %d hook events validated against the step machine, %d mismatching (%.1fs TLC)' % (sn, sev, len(sbad), swall))
 
     # classification
     bad_idx = {i: cls for i, cls in bad}
@@ -403,6 +417,7 @@ def run_check(prop, tier, seed, t0, no_mc=False):
         'mc_behaviours_replayed': mc_info['behaviours'],
         'model_agreement': '%d/%d' % (n_pred - len(drift), n_pred),
         'drift_cases': drift[:20],
+        'step_validation': step_info,
         'model_level_violations': mc_info['model_violations'],
         'predicate_failures': len(bad_idx),
         'known_findings_hit': known_hits,
